@@ -22,7 +22,7 @@ ASSUMPTIONS = [
     "skeleton = per emitted file the tree of ast node class names; file names are ignored for positions that legitimately rename files (tags)",
     "name positions whose payload has no identifier characters at all are name-derivation cases (C20) and are reported under their own clause here",
 ]
-BOUND = {"quick": "30 positions x 51 payloads = 1530 documents", "thorough": "+ every string of length<=3 over {\", \\\\, LF, a} at every position (2268) + all position pairs for 4 payloads"}
+BOUND = {"quick": "31 positions x 55 payloads = 1705 documents", "thorough": "+ every string of length<=3 over {\", \\\\, LF, a} at every position (2268) + all position pairs for 4 payloads"}
 CHUNK = 4
 
 PAYLOADS = {
